@@ -336,6 +336,14 @@ while len(cases) < ncase:
         f = add("string-errors", "(InString %s)" % cstr(s), lambda: formula(s), s)
         if isinstance(f, Formula):
             fails.append(dict(signature="C11:invalid-mixture-accepted", what="formula(%r) yields %s" % (s, f), input=s))
+# keywords applied to an absolute-amount string keep what the string states
+for text_, attr_, want_ in (("5g NaCl // 50mL H2O@1", "total_mass", 55.0), ("1 um Si // 5 nm Cr // 10 nm Au", "thickness", 1.015e-6)):
+    for kw_ in (dict(name="sample"), dict(density=2.0), dict(natural_density=2.0)):
+        f_ = attempt(lambda: formula(text_, **kw_))
+        if isinstance(f_, Exception) or not rel(getattr(f_, attr_, 0) or 0, want_, 1e-12):
+            fails.append(dict(signature="C11:%s" % attr_, what="formula(%r, %s).%s is %r, the string states %r"
+                              % (text_, ", ".join("%s=%r" % kv for kv in kw_.items()), attr_, f_ if isinstance(f_, Exception) else getattr(f_, attr_, None), want_),
+                              input=text_))
 # a bracketed mixture takes a density tag like a compound: '@d' / '@di' is its density, '@dn' its natural density
 stats["tagged_brackets"] = 0
 for inner in ("50 wt% H2O@1 // D2O@1n", "30 vol% D2O@1n // H2O@1", "10 wt% Fe[56] // Ni", "25 wt% Li[6]F@2.6 // LiF@2.64", "40 wt% NaCl@2.16 // H2O@1"):
